@@ -16,7 +16,7 @@ pub const FLOORS: &[&str] = &[
     "out:out", "out:putn", "out:reg", "in:getc", "in:in", "orig:lt3000", "orig:3000", "orig:mid",
     "orig:ge8000", "path:try_from", "path:from_raw", "feature:loop", "feature:self_modify",
     "feature:recursion", "feature:nested_call", "ending:FallOff", "nonascii_input", "feature:empty_image",
-    "raw:empty_image",
+    "raw:empty_image", "directed_raw_image",
 ];
 
 pub const FUEL: u64 = 5000;
@@ -360,7 +360,12 @@ fn raw_case(seed: u64, i: u64) -> CaseOut {
     let stack = rng.bool();
     crate::exec::init_features(stack);
     lace::set_minimal(true);
-    let raw = gen_raw_image(&mut rng);
+    let raw = if i % 7 == 3 {
+        out.class("directed_raw_image");
+        crate::progs::directed_raw_image(i / 7)
+    } else {
+        gen_raw_image(&mut rng)
+    };
     let mut input = Vec::new();
     for _ in 0..rng.below(4) {
         input.push(match rng.below(6) {
